@@ -86,6 +86,7 @@ type labelSite struct {
 	pkg, fn, kind, value string // kind: hkdf-salt | hkdf-info | hmac
 	pos                  token.Pos
 	keyPath              string
+	keyIsParam           bool
 }
 
 // c01Published is the published derivation table: per package, the labels it may use and in which role.
@@ -137,7 +138,8 @@ func (c *Ctx) collectLabels() ([]labelSite, []string) {
 						unresolved = append(unresolved, fmt.Sprintf("%s: %s of hkdf.New is %s", fnName(f), kind, firstN(pathOf(a[i]), 60)))
 						continue
 					}
-					out = append(out, labelSite{pkg, fnName(f), kind, s, in.Pos(), pathOf(a[1])})
+					_, isP := a[1].(*ssa.Parameter)
+					out = append(out, labelSite{pkg, fnName(f), kind, s, in.Pos(), pathOf(a[1]), isP})
 				}
 			case repoMod + "/pkg/core.ConjureHMAC":
 				a := ci.Common().Args
@@ -149,7 +151,8 @@ func (c *Ctx) collectLabels() ([]labelSite, []string) {
 					unresolved = append(unresolved, fmt.Sprintf("%s: label of ConjureHMAC is %s", fnName(f), firstN(pathOf(a[1]), 60)))
 					return
 				}
-				out = append(out, labelSite{pkg, fnName(f), "hmac", s, in.Pos(), pathOf(a[0])})
+				_, isP := a[0].(*ssa.Parameter)
+				out = append(out, labelSite{pkg, fnName(f), "hmac", s, in.Pos(), pathOf(a[0]), isP})
 			}
 		})
 	}
@@ -458,7 +461,7 @@ func checkC01(c *Ctx) {
 		if s.kind != "hmac" || c01Published[s.pkg] == nil {
 			continue
 		}
-		okKey := strings.HasSuffix(s.keyPath, ".SharedSecret()") || strings.HasSuffix(s.keyPath, ".SharedSecret") || s.keyPath == "sharedSecret"
+		okKey := strings.HasSuffix(s.keyPath, ".SharedSecret()") || strings.HasSuffix(s.keyPath, ".SharedSecret") || (s.keyIsParam && strings.Contains(s.fn, "PrepareKeys"))
 		r.Check(okKey, "C01.1", s.fn+": tag keyed by the shared secret", s.pos, s.fn, "HMAC key = "+s.keyPath,
 			"the connection tag is keyed by "+s.keyPath+" instead of the registration's shared secret: client and station derive different tags")
 	}
@@ -518,7 +521,7 @@ func checkC01(c *Ctx) {
 			}
 			var seedParam *ssa.Parameter
 			for _, p := range f.Params {
-				if p.Name() == "seed" {
+				if seedParam == nil && p.Type().String() == "[]byte" {
 					seedParam = p
 				}
 			}
@@ -575,13 +578,8 @@ func checkC01(c *Ctx) {
 
 	if f := c.fn("C01.5", "pkg/station/lib", "RegistrationManager", "getPhantomDstPort"); f != nil {
 		var libVer, sr *ssa.Parameter
-		for _, p := range f.Params {
-			switch p.Name() {
-			case "libVer":
-				libVer = p
-			case "supportsRandom":
-				sr = p
-			}
+		if len(f.Params) == 6 {
+			libVer, sr = f.Params[4], f.Params[5]
 		}
 		n := 0
 		for _, ci := range callsIn(f, shortIs("GetDstPort")) {
@@ -590,7 +588,7 @@ func checkC01(c *Ctx) {
 			r.Check(okk, "C01.5", "getPhantomDstPort: transport port only for libver >= 3 on a randomising subnet", ci.Pos(), fnName(f), "dominated by !(libVer < 3) && supportsRandom",
 				"the station asks the transport for a seeded port although the client is older than version 3 or the phantom subnet does not randomise: those clients connect to 443 and never meet the station")
 			a := ci.Common().Args
-			okArgs := len(a) == 3 && a[0] == ssa.Value(libVer) && pathOf(a[1]) == "seed" && pathOf(a[2]) == "params"
+			okArgs := len(a) == 3 && a[0] == ssa.Value(libVer) && pathOf(a[1]) == argName(f, 2) && pathOf(a[2]) == argName(f, 1)
 			r.Check(okArgs, "C01.5", "getPhantomDstPort: passes its own libVer, seed and params to the transport", ci.Pos(), fnName(f), "arguments are the parameters", "getPhantomDstPort hands the transport different inputs than it was given")
 		}
 		if n == 0 {
@@ -835,9 +833,112 @@ func (c *Ctx) checkC01Routine(sites []labelSite) {
 	// seed handling at the derivation sites: hkdf keyed by the function's own seed parameter
 	for _, s := range sites {
 		if s.kind == "hkdf-info" && (s.pkg == ph || s.pkg == "pkg/transports") {
-			r.Check(s.keyPath == "seed", "C01.3", s.fn+": stream keyed by the seed parameter", s.pos, s.fn, "hkdf secret = "+s.keyPath,
+			r.Check(s.keyIsParam, "C01.3", s.fn+": stream keyed by the seed parameter", s.pos, s.fn, "hkdf secret = "+s.keyPath,
 				"the derivation stream is keyed by "+s.keyPath+" rather than the seed handed in")
 		}
+	}
+	// the weighted group choice: groups ordered by weight only (ties keep the order the sort leaves them in - every
+	// released client does exactly this, so any other tie-break or a stable sort moves tied groups), one draw below
+	// the total weight, cumulative subtraction until negative
+	if f := c.fn("C01.3", ph, "", "getSubnetsHkdf"); f != nil {
+		var sorts []ssa.CallInstruction
+		eachInstr(f, func(in ssa.Instruction) {
+			if ci, ok := in.(ssa.CallInstruction); ok && (strings.HasPrefix(calleeName(ci.Common()), "sort.") || strings.HasPrefix(calleeName(ci.Common()), "slices.Sort")) {
+				sorts = append(sorts, ci)
+			}
+		})
+		okSort := len(sorts) == 1 && calleeName(sorts[0].Common()) == "sort.Slice"
+		got := ""
+		var sorted ssa.Value
+		if okSort {
+			okSort = false
+			sorted = stripConv(sorts[0].Common().Args[0])
+			if mc, ok := sorts[0].Common().Args[1].(*ssa.MakeClosure); ok {
+				less := mc.Fn.(*ssa.Function)
+				nret := 0
+				okSort = true
+				eachInstr(less, func(in ssa.Instruction) {
+					if ret, ok := in.(*ssa.Return); ok {
+						nret++
+						got = pathOf(ret.Results[0])
+						bo, ok := ret.Results[0].(*ssa.BinOp)
+						if !ok || bo.Op != token.LSS || len(less.Params) != 2 || !weightOfElem(bo.X, less.Params[0]) || !weightOfElem(bo.Y, less.Params[1]) {
+							okSort = false
+						}
+					}
+				})
+				okSort = okSort && nret == 1
+			}
+		} else if len(sorts) > 0 {
+			got = calleeName(sorts[0].Common())
+		}
+		pos := f.Pos()
+		if len(sorts) > 0 {
+			pos = sorts[0].Pos()
+		}
+		r.Check(okSort, "C01.3", "getSubnetsHkdf: groups ordered by sort.Slice on weight only", pos, fnName(f), "less(i,j) = weight(group i) < weight(group j)",
+			"the weighted groups are not ordered by exactly sort.Slice(groups, weight_i < weight_j) ("+firstN(got, 80)+"): groups of equal weight end up in a different order than in every released client, so for seeds landing in a tied group the station picks a different subnet (and randomise flag) than the client")
+		okDraw, okLoop := false, false
+		var drawn ssa.Value
+		eachInstr(f, func(in ssa.Instruction) {
+			if ci, ok := in.(*ssa.Call); ok && calleeName(&ci.Call) == "crypto/rand.Int" {
+				// second operand: big.NewInt(total) where total is a loop-carried sum of int64(weight)
+				if bn, ok := ci.Call.Args[1].(*ssa.Call); ok && calleeName(&bn.Call) == "math/big.NewInt" {
+					if ph, ok := bn.Call.Args[0].(*ssa.Phi); ok {
+						for _, e := range ph.Edges {
+							if bo, ok := e.(*ssa.BinOp); ok && bo.Op == token.ADD && strings.HasSuffix(pathOf(bo.Y), ".GetWeight())") && strings.HasPrefix(pathOf(bo.Y), "int64(") {
+								okDraw = true
+							}
+						}
+					}
+				}
+				for _, ex := range extractOf(ci, 0) {
+					drawn = ex
+				}
+			}
+		})
+		eachInstr(f, func(in ssa.Instruction) {
+			iff, ok := in.(*ssa.If)
+			if !ok {
+				return
+			}
+			lt, ok := iff.Cond.(*ssa.BinOp)
+			if !ok || lt.Op != token.LSS {
+				return
+			}
+			if cv, ok := constOf(lt.Y); !ok || cv.ExactString() != "0" {
+				return
+			}
+			sub, ok := lt.X.(*ssa.BinOp)
+			if !ok || sub.Op != token.SUB {
+				return
+			}
+			// remainder: a phi of (the drawn value, this subtraction); subtrahend: int64(weight of the current sorted element)
+			ph, ok := sub.X.(*ssa.Phi)
+			if !ok || drawn == nil {
+				return
+			}
+			fromDraw, fromSelf := false, false
+			for _, e := range ph.Edges {
+				if e == ssa.Value(sub) {
+					fromSelf = true
+				} else if dependsOn(e, drawn) {
+					fromDraw = true
+				}
+			}
+			yp := pathOf(sub.Y)
+			elemOK := strings.HasPrefix(yp, "int64(") && strings.HasSuffix(yp, ".GetWeight())") && sorted != nil && strings.HasPrefix(strings.TrimPrefix(yp, "int64("), pathOf(sorted)+"[")
+			if !fromDraw || !fromSelf || !elemOK {
+				return
+			}
+			for _, i2 := range in.Block().Succs[0].Instrs {
+				if cl, ok := i2.(*ssa.Call); ok && calleeShort(&cl.Call) == "parseSubnets" && strings.HasPrefix(pathOf(cl.Call.Args[0]), pathOf(sorted)+"[") {
+					okLoop = true
+				}
+			}
+		})
+		r.Check(okDraw, "C01.3", "getSubnetsHkdf: one draw below the sum of the group weights", f.Pos(), fnName(f), "rand.Int(stream, big.NewInt(sum of int64(weight)))", "the group draw is not rand.Int(stream, totalWeight) with totalWeight the sum of the group weights")
+		r.Check(okLoop, "C01.3", "getSubnetsHkdf: cumulative subtraction in sorted order, first negative wins", f.Pos(), fnName(f), "rnd -= weight; rnd < 0 -> parseSubnets(choice)", "the walk over the sorted groups is not 'subtract the weight, take the group when the remainder turns negative'")
 	}
 	closure := func(root *ssa.Function) map[string]bool {
 		seen := map[*ssa.Function]bool{}
@@ -879,9 +980,9 @@ func (c *Ctx) checkC01Routine(sites []labelSite) {
 			what   string
 		}
 		for _, d := range []disp{
-			{"selectPhantomImplV0", []Atom{{"(clientLibVer < 1)", true}}, "libver < 1"},
-			{"selectPhantomImplVarint", []Atom{{"(clientLibVer < 1)", false}, {"(clientLibVer < 2)", true}}, "1 <= libver < 2"},
-			{"selectPhantomImplHkdf", []Atom{{"(clientLibVer < 1)", false}, {"(clientLibVer < 2)", false}}, "libver >= 2"},
+			{"selectPhantomImplV0", []Atom{{"(" + argName(sel, 2) + " < 1)", true}}, "libver < 1"},
+			{"selectPhantomImplVarint", []Atom{{"(" + argName(sel, 2) + " < 1)", false}, {"(" + argName(sel, 2) + " < 2)", true}}, "1 <= libver < 2"},
+			{"selectPhantomImplHkdf", []Atom{{"(" + argName(sel, 2) + " < 1)", false}, {"(" + argName(sel, 2) + " < 2)", false}}, "libver >= 2"},
 		} {
 			calls := callsIn(sel, shortIs(d.callee))
 			if len(calls) == 0 {
@@ -891,9 +992,9 @@ func (c *Ctx) checkC01Routine(sites []labelSite) {
 			for _, ci := range calls {
 				g := guardedAll(sel, ci.(ssa.Instruction), d.atoms...)
 				a := ci.Common().Args
-				okSeed := len(a) >= 2 && pathOf(a[0]) == "seed"
+				okSeed := len(a) >= 2 && pathOf(a[0]) == argName(sel, 0)
 				// the subnets argument went through the family filter, which consumed the version-specific subnet choice
-				okFlow := len(a) >= 2 && (strings.Contains(pathOf(a[1]), "V4Only(") || strings.Contains(pathOf(a[1]), "V6Only(")) && strings.Contains(pathOf(a[1]), "subnetsByVersion(seed, clientLibVer,")
+				okFlow := len(a) >= 2 && (strings.Contains(pathOf(a[1]), "V4Only(") || strings.Contains(pathOf(a[1]), "V6Only(")) && strings.Contains(pathOf(a[1]), "subnetsByVersion("+argName(sel, 0)+", "+argName(sel, 2)+",")
 				r.Check(g && okSeed && okFlow, "C01.3", "Select: "+d.callee+" exactly for "+d.what+", on the filtered group chosen for this seed", ci.Pos(), fnName(sel), "guards "+fmt.Sprint(d.atoms)+"; args "+firstN(pathOf(a[1]), 80),
 					"the selector for clients with "+d.what+" is not called under exactly that version test with (seed, family-filtered subnets chosen by subnetsByVersion(seed, clientLibVer, …)): those clients compute a different phantom than the station")
 			}
@@ -903,7 +1004,7 @@ func (c *Ctx) checkC01Routine(sites []labelSite) {
 			pol  bool
 		}{{"V6Only", true}, {"V4Only", false}} {
 			for _, ci := range callsIn(sel, shortIs(fl.name)) {
-				r.Check(guarded(sel, ci.(ssa.Instruction), Atom{"v6Support", fl.pol}), "C01.3", "Select: "+fl.name+" iff v6Support == "+fmt.Sprint(fl.pol), ci.Pos(), fnName(sel), "dominated by the family flag",
+				r.Check(guarded(sel, ci.(ssa.Instruction), Atom{argName(sel, 3), fl.pol}), "C01.3", "Select: "+fl.name+" iff v6Support == "+fmt.Sprint(fl.pol), ci.Pos(), fnName(sel), "dominated by the family flag",
 					"the family filter "+fl.name+" is applied for the wrong address family")
 			}
 		}
@@ -926,11 +1027,11 @@ func (c *Ctx) checkC01Routine(sites []labelSite) {
 				}
 				seedOK := false
 				for _, x := range a {
-					if pathOf(x) == "seed" {
+					if pathOf(x) == argName(f, 0) {
 						seedOK = true
 					}
 				}
-				r.Check(guarded(f, ci.(ssa.Instruction), Atom{"(clientLibVer < 2)", d.pol}) && weighted && seedOK, "C01.3", "subnetsByVersion: "+d.callee+" (weighted, own seed) iff (libver < 2) == "+fmt.Sprint(d.pol), ci.Pos(), fnName(f), "version test, weighted=true, seed parameter",
+				r.Check(guarded(f, ci.(ssa.Instruction), Atom{"(" + argName(f, 1) + " < 2)", d.pol}) && weighted && seedOK, "C01.3", "subnetsByVersion: "+d.callee+" (weighted, own seed) iff (libver < 2) == "+fmt.Sprint(d.pol), ci.Pos(), fnName(f), "version test, weighted=true, seed parameter",
 					"the subnet-group choice for this library version is not "+d.callee+"(…seed…, weighted=true) under the published version test")
 			}
 		}
@@ -940,7 +1041,7 @@ func (c *Ctx) checkC01Routine(sites []labelSite) {
 		for _, ci := range callsIn(cli, shortIs("selectIPAddr", "selectPhantomImplHkdf")) {
 			a := ci.Common().Args
 			p1 := pathOf(a[1])
-			okk := pathOf(a[0]) == "seed" && strings.Contains(p1, "getSubnets(subnetsList, seed, weighted)")
+			okk := pathOf(a[0]) == argName(cli, 0) && strings.Contains(p1, "getSubnets("+argName(cli, 1)+", "+argName(cli, 0)+", "+argName(cli, 3)+")")
 			r.Check(okk, "C01.3", "SelectPhantom: address drawn with the same seed from the (filtered) group chosen with that seed", ci.Pos(), fnName(cli), firstN(p1, 90),
 				"the client entry point draws the address with other inputs than (seed, filter(getSubnets(list, seed, weighted))): it no longer mirrors the station's Select")
 		}
@@ -949,13 +1050,13 @@ func (c *Ctx) checkC01Routine(sites []labelSite) {
 	if f := c.fn("C01.3", "pkg/station/lib", "RegistrationManager", "NewRegistration"); f != nil {
 		for _, ci := range callsIn(f, shortIs("Select")) {
 			a := argsOf(ci.Common())
-			okk := len(a) == 4 && pathOf(a[0]) == "conjureKeys.ConjureSeed" && strings.Contains(pathOf(a[1]), "c2s.GetDecoyListGeneration()") && strings.Contains(pathOf(a[2]), "c2s.GetClientLibVersion()") && pathOf(a[3]) == "includeV6"
+			okk := len(a) == 4 && pathOf(a[0]) == argName(f, 1)+".ConjureSeed" && strings.Contains(pathOf(a[1]), argName(f, 0)+".GetDecoyListGeneration()") && strings.Contains(pathOf(a[2]), argName(f, 0)+".GetClientLibVersion()") && pathOf(a[3]) == argName(f, 2)
 			r.Check(okk, "C01.3", "NewRegistration: Select(ConjureSeed, generation, libver, family) of the registration", ci.Pos(), fnName(f), firstN(fmt.Sprint(pathOf(a[0]), ", ", pathOf(a[1]), ", ", pathOf(a[2]), ", ", pathOf(a[3])), 120),
 				"the station selects the phantom from other inputs than the registration's seed, ClientConf generation, library version and address family")
 		}
 		for _, ci := range callsIn(f, shortIs("getPhantomDstPort")) {
 			a := argsOf(ci.Common())
-			okk := len(a) == 5 && pathOf(a[2]) == "conjureKeys.ConjureSeed" && strings.Contains(pathOf(a[3]), "c2s.GetClientLibVersion()") && strings.HasSuffix(pathOf(a[4]), ".SupportRandomPort()") && strings.Contains(pathOf(a[4]), "Select(")
+			okk := len(a) == 5 && pathOf(a[2]) == argName(f, 1)+".ConjureSeed" && strings.Contains(pathOf(a[3]), argName(f, 0)+".GetClientLibVersion()") && strings.HasSuffix(pathOf(a[4]), ".SupportRandomPort()") && strings.Contains(pathOf(a[4]), "Select(")
 			r.Check(okk, "C01.3", "NewRegistration: port from (transport, params, ConjureSeed, libver, the selected phantom's randomise flag)", ci.Pos(), fnName(f), firstN(pathOf(a[2])+", "+pathOf(a[3])+", "+pathOf(a[4]), 120),
 				"the station derives the phantom port from other inputs than the registration's seed, library version and the chosen subnet's randomise flag")
 		}
@@ -994,8 +1095,10 @@ func (c *Ctx) checkC01Draws() {
 		for _, s := range steps {
 			d := s.desc
 			for _, g := range guardsOf(f, s.in) {
-				if strings.Contains(g, "Ver") || strings.Contains(g, "ver") {
-					d += " if " + g
+				for _, prm := range f.Params {
+					if b, ok := prm.Type().Underlying().(*types.Basic); ok && b.Info()&types.IsInteger != 0 && strings.Contains(g, "("+prm.Name()+" ") {
+						d += " if " + g
+					}
 				}
 			}
 			got = append(got, d)
@@ -1014,7 +1117,7 @@ func (c *Ctx) checkC01Draws() {
 	}
 	if f := c.fn("C01.4", "pkg/core", "", "GenSharedKeys"); f != nil {
 		if rd := hk(f); rd != nil {
-			expect(f, rd, []string{"Read[104] -> scratch if (clientLibVer < 4)", "Read[16] -> .ConjureSeed", "keep as .TransportReader"}, "legacy pre-draw, seed, transport stream")
+			expect(f, rd, []string{"Read[104] -> scratch if (" + argName(f, 0) + " < 4)", "Read[16] -> .ConjureSeed", "keep as .TransportReader"}, "legacy pre-draw, seed, transport stream")
 		} else {
 			r.Unk("C01.4", "GenSharedKeys: hkdf stream", f.Pos(), fnName(f), "hkdf.New not found")
 		}
@@ -1071,7 +1174,7 @@ func (c *Ctx) checkC01Draws() {
 			ap := pathOf(a[0])
 			if !strings.HasSuffix(ap, ".TransportReader()") {
 				if strings.Contains(fnName(f), "ClientTransport") {
-					r.Check(ap == "dRand", "C01.4", fnName(f)+": obfs4 keys from the stream handed to PrepareKeys", ci.Pos(), fnName(f), ap, "the client derives its obfs4 keys from "+ap+" rather than the shared-keys stream passed in")
+					r.Check(ap == argName(f, 2), "C01.4", fnName(f)+": obfs4 keys from the stream handed to PrepareKeys", ci.Pos(), fnName(f), ap, "the client derives its obfs4 keys from "+ap+" rather than the shared-keys stream passed in")
 				}
 				continue
 			}
@@ -1102,4 +1205,29 @@ func guardedAll(f *ssa.Function, in ssa.Instruction, atoms ...Atom) bool {
 		}
 	}
 	return true
+}
+
+// weightOfElem: v is <slice>[idx].GetWeight() for the given index parameter.
+func weightOfElem(v ssa.Value, idx *ssa.Parameter) bool {
+	call, ok := v.(*ssa.Call)
+	if !ok || calleeShort(&call.Call) != "GetWeight" || len(call.Call.Args) != 1 {
+		return false
+	}
+	u, ok := call.Call.Args[0].(*ssa.UnOp)
+	if !ok || u.Op != token.MUL {
+		return false
+	}
+	ia, ok := u.X.(*ssa.IndexAddr)
+	return ok && ia.Index == ssa.Value(idx)
+}
+
+// argName is the name of the i-th declared parameter of f (the receiver is not counted).
+func argName(f *ssa.Function, i int) string {
+	if f.Signature.Recv() != nil {
+		i++
+	}
+	if i < len(f.Params) {
+		return f.Params[i].Name()
+	}
+	return "?"
 }
